@@ -100,6 +100,9 @@ def corpus():
     for beh in ({}, {"1": 2, "2": 2, "3": 2, "4": 2, "5": 2}):
         out.append({"src": ["lit", [[["VERSION", "0.83"], ["TITLE", "t"], ["BPMS", "0=1"], ["STOPS", ""]], [plain]]], "beh": beh,
                     "ts": {"props": "empty", "extra": [["CREDIT", "tmpl"], ["X", "y"]], "charts": 1, "extras": True}, "tc": {"radar": "1,2,3", "extras": True}})
+    for beh in ({}, {"1": 1, "2": 1, "3": 1, "4": 1, "5": 1}, {"1": 3, "2": 3, "3": 3, "4": 3, "5": 3}):
+        out.append({"src": ["lit", [[["VERSION", "0.83"], ["TITLE", "t"], ["BPMS", "0=1"], ["STOPS", ""], ["ORIGIN", "src"], ["COMBOS", "0.000=1"], ["LABELS", " 0.000=Song Start\n"], ["JACKET", "j.png"]], [plain]]], "beh": beh,
+                    "ts": {"props": "blank", "extra": [["ORIGIN", "tmpl origin"], ["COMBOS", "0.000=1"], ["LABELS", "0.000=tmpl"], ["JACKET", "tmpl.png"]], "charts": 0}, "tc": None})
     return out
 
 
@@ -128,6 +131,9 @@ def gen(rng, i, tier):
     ts = tc = None
     if rng.random() < 0.35:
         ts = {"props": rng.choice(["blank", "blank", "empty"]), "extra": [["CREDIT", "tmpl"], ["X", "y"]][: rng.randrange(0, 3)], "charts": rng.choice([0, 0, 1]), "extras": rng.random() < 0.5}
+        if rng.random() < 0.4:
+            # a template may itself hold keys the SM format does not define: they are the template's, whatever happens to the source's
+            ts["extra"] = ts["extra"] + rng.sample([["ORIGIN", "tmpl origin"], ["LABELS", "0.000=tmpl"], ["COMBOS", "0.000=1"], ["WARPS", ""], ["JACKET", "tmpl.png"], ["VERSION", "0.5"]], rng.randrange(1, 4))
     if rng.random() < 0.3:
         tc = {"radar": rng.choice(["1,2,3", "0"]), "extras": rng.random() < 0.5}
     return {"src": ["lit", [props, charts]], "beh": beh, "ts": ts, "tc": tc, "subclass": rng.choice([0, 0, 0, 1, 2, 3, 4, 7])}
